@@ -143,8 +143,8 @@ var _ = cstypes.RoundStepNewHeight
 func Main() {
 	r := core.Start("C18", "exploration")
 	if !r.IsChild() {
-		base := ""
-		if fi, err := os.Stat("/dev/shm"); err == nil && fi.IsDir() {
+		base := os.Getenv("VERIF_SCRATCH") // the run's scratch directory (core removes it in Finish)
+		if fi, err := os.Stat("/dev/shm"); base == "" && err == nil && fi.IsDir() {
 			base = "/dev/shm"
 		}
 		if d, err := os.MkdirTemp(base, "c18run"); err == nil {
